@@ -116,6 +116,9 @@ def classify_fold(req, impl_line, model_line):
                 tags = ["optimizer:removes-runtime-error"]
             else:
                 tags = ["optimizer:on-off-differs"]
+    # `fold:null-loses-type` explains only "fails with the optimizer, succeeds without"
+    if "fold:null-loses-type" in tags and not (problems == ["optimizer-on!=off"] and not so.startswith("ok") and sn.startswith("ok")):
+        tags = [t for t in tags if t != "fold:null-loses-type"]
     return {"kind": "fold", "impl": impl_line, "model": model_line, "tags": tags, "problems": problems,
             "model_eq_impl": ip[0] == mp[0] and ip[1] == mp[1]}
 
